@@ -216,6 +216,13 @@ def run(ctx, model_ok, deep=False):
             flush()
     flush()
     jwk_users(ctx)
+    # the decoders as the checker uses them, with a history: a segment that only STARTS like the previous token's
+    from props import _family as F
+    import suites as S
+    F.run_suites(ctx, model_ok, deep, [
+        ("header-history", S.header_history_suite, S.falsify_accept,
+         "a genuine token, then on the same checker (or another one of the thread) a token whose header has the same length and the same first k base64url characters but names another algorithm / none / no algorithm of the library, or is the first header with characters appended, signed correctly over its own text; then the genuine token again; k and the header length on both sides of 16...4096 and of every size new in the source; HS256 and RS256", False),
+    ])
     for suite, s in per.items():
         ctx.add_suite(suite, evaluations=s["evaluations"], distinct_nontrivial=len(s["outs"]),
                       rule="distinct = distinct implementation answers (counted up to 200000 per suite); every case compared with the Lean model and judged by the falsifier",
